@@ -958,6 +958,9 @@ func (r *simRun) step() (bool, error) {
 	if len(dead) > 0 {
 		acts = append(acts, act{"restart", 4})
 	}
+	if len(live)+len(dead) > 0 {
+		acts = append(acts, act{"submitTx", 2})
+	}
 	if len(acts) == 0 {
 		return false, nil
 	}
@@ -1081,7 +1084,16 @@ func (r *simRun) step() (bool, error) {
 		}
 		return true, nil
 	case "restart":
-		return true, s.restart(r.pickNode("node", dead))
+		j := r.pickNode("node", dead)
+		if rapid.IntRange(0, 2).Draw(rt, "poolChangedWhileDown") == 0 {
+			if err := s.submitTx(j); err != nil {
+				return true, err
+			}
+			r.counts["submitTxWhileDown"]++
+		}
+		return true, s.restart(j)
+	case "submitTx":
+		return true, s.submitTx(r.pickNode("node", append(append([]int{}, live...), dead...)))
 	}
 	return true, nil
 }
@@ -1236,6 +1248,12 @@ func simRunCase(rt *rapid.T, mode string, profile string, rec *ev.Rec) {
 	}
 	if r.counts["oldPolka.stuck"] > 0 {
 		labels = append(labels, "oldPolkaStuck")
+	}
+	if r.counts["submitTxWhileDown"] > 0 {
+		labels = append(labels, "poolChangedWhileNodeDown")
+	}
+	if r.counts["submitTx"]+r.counts["submitTxWhileDown"] > 0 {
+		labels = append(labels, "transactionsSubmitted")
 	}
 	if r.counts["oldPolka.lateAtLaterRound"] > 0 {
 		labels = append(labels, "oldPolkaAfterVictimLeftLockRound")
